@@ -366,7 +366,7 @@ class WaitIterator:
         self.current_future: Future | None = None
         self._running_future: Future | None = None
 
-        for future in futures:
+        for future in list(self._unfinished):
             future_add_done_callback(future, self._done_callback)
 
     def done(self) -> bool:
